@@ -16,14 +16,20 @@ import signal
 import sys
 import traceback
 
-from . import seams
+from . import seams, wal
 from .seams import SimExit, StepBudgetExceeded, StepClock, Tripwires, WallTimeout, Window
 from .simfs import REPO, HarnessError, SimCrash, SimFS
 
 REPO_PREFIXES = (REPO + "/compiler/", REPO + "/lib/py/")
+SIM_DIR = os.path.dirname(os.path.abspath(__file__)) + "/"
 SYSTEM_OPS = ("parse", "parse_string", "lint", "render", "cli", "introspect")
 MAX_BUDGET = 120_000_000
-WALL_LIMIT_S = 20.0  # ordinary operations take 5-500 ms (deep-nesting templates a few seconds)
+# Backstop for stalls the step clock cannot see (inside C code: regular expressions, big-number
+# arithmetic). It is measured in CPU time of this process, which machine load does not inflate
+# (ordinary operations take 5-500 ms, deep-nesting templates a few seconds); a much longer
+# real-time limit catches a stall that burns no CPU (blocking on something real).
+WALL_LIMIT_S = 20.0
+REAL_LIMIT_FACTOR = 15
 
 _ADDR = re.compile(r"0x[0-9a-fA-F]{6,}")
 
@@ -212,7 +218,8 @@ class CompilerProcess:
         if isinstance(exc, SimExit):
             return "exit:%s" % (exc.code,)
         if isinstance(exc, SystemExit):
-            return "sysexit:%s" % (exc.code,)
+            # sys.exit("message") prints the message to stderr and ends with status 1
+            return "sysexit:%s" % (exc.code if exc.code is None or isinstance(exc.code, int) else 1,)
         if isinstance(exc, StepBudgetExceeded) or self.clock.tripped:
             # (a tripped clock wins even if the code turned the interruption into something else)
             return "hang:steps"
@@ -222,6 +229,10 @@ class CompilerProcess:
             return "parser_error:" + type(exc).__name__
         if isinstance(exc, errors.RendererError):
             return "renderer_error:" + type(exc).__name__
+        if isinstance(exc, errors.Error) and not isinstance(exc, errors.InternalError):
+            # any other error class of bitproto's own hierarchy is a *reported* error too
+            # (the property forbids internal exceptions and tracebacks, not new error classes)
+            return "reported_error:" + type(exc).__name__
         if isinstance(exc, OSError):
             import errno as _e
 
@@ -230,6 +241,10 @@ class CompilerProcess:
         where = "?"
         tb = exc.__traceback__
         frames = traceback.extract_tb(tb) if tb else []
+        if frames and frames[-1].filename.startswith(SIM_DIR) and not isinstance(exc, (ValueError, LookupError)):
+            # raised by the simulator's own code (not an OSError, not the ValueError CPython's file
+            # objects raise): the model is wrong or incomplete -- never the system's fault
+            raise HarnessError("%s raised inside the simulator at %s:%s (%s): %s" % (type(exc).__name__, frames[-1].filename, frames[-1].lineno, frames[-1].name, exc))
         chosen = None
         for fr in frames:
             if fr.filename.startswith(REPO_PREFIXES):
@@ -255,8 +270,12 @@ class CompilerProcess:
         result = None
         exc = None
         steps = 0
+        limit = WALL_LIMIT_S * float(self.plan.get("wall_factor", 1))
         old = signal.signal(signal.SIGALRM, self._alarm)
-        signal.setitimer(signal.ITIMER_REAL, WALL_LIMIT_S * float(self.plan.get("wall_factor", 1)))
+        old_prof = signal.signal(signal.SIGPROF, self._alarm)
+        wal.mark("begin %d %s" % (i, op["op"]))
+        signal.setitimer(signal.ITIMER_REAL, limit * REAL_LIMIT_FACTOR)
+        signal.setitimer(signal.ITIMER_PROF, limit)
         try:
             with win:
                 if self.use_steps:
@@ -270,8 +289,11 @@ class CompilerProcess:
         except BaseException as e:  # noqa
             exc = e
         finally:
+            signal.setitimer(signal.ITIMER_PROF, 0)
             signal.setitimer(signal.ITIMER_REAL, 0)
             signal.signal(signal.SIGALRM, old)
+            signal.signal(signal.SIGPROF, old_prof)
+            wal.mark("end %d" % i)
         rec["steps"] = steps
         rec["budget"] = budget
         rec["outcome"] = "ok" if exc is None else self.classify(exc)
@@ -279,6 +301,8 @@ class CompilerProcess:
             msg = _ADDR.sub("0x?", str(exc))[:300]
             rec["exc"] = type(exc).__name__
             rec["msg"] = msg
+            if isinstance(exc, SystemExit) and exc.code is not None and not isinstance(exc.code, int):
+                rec["exit_msg_len"] = len(str(exc.code))
             if rec["outcome"].startswith("internal:"):
                 rec["tb"] = [
                     "%s:%s" % (fr.filename.replace(REPO + "/compiler/", ""), fr.name)
@@ -469,7 +493,13 @@ class CompilerProcess:
         if kind == "cli":
             budget = min(MAX_BUDGET, self.budget_parse() + 25_000_000)
             main = self.mod("bitproto._main")
-            rec, _ = self.system_op(i, op, lambda: main.run_bitproto(), budget, argv=["bitproto"] + list(op["argv"]))
+            rec, ret = self.system_op(i, op, lambda: main.run_bitproto(), budget, argv=["bitproto"] + list(op["argv"]))
+            if rec["outcome"] == "ok" and ret not in (None, 0):
+                # the console-script wrapper does sys.exit(run_bitproto())
+                rec["outcome"] = "sysexit:%s" % (ret if isinstance(ret, int) else 1,)
+                rec["returned_status"] = True
+                if not isinstance(ret, int):
+                    rec["exit_msg_len"] = len(str(ret))
             if op.get("outdir_abs"):
                 rec["outputs"] = self.outputs_in(op["outdir_abs"])
             return rec
